@@ -332,7 +332,7 @@ Proof.
   specialize (IH s1 now I1). destruct (received_q s1 now r) as [s2 k]; simpl in *; auto.
 Qed.
 
-Lemma inv_status_q s now n sent : Inv s -> Inv (fst (status_q s now n sent)).
+Lemma inv_status_q s now n h sent : Inv s -> Inv (fst (status_q s now n h sent)).
 Proof. intros I. unfold status_q. simpl. apply inv_build_cache; auto. Qed.
 
 Lemma inv_fold_lock : forall (l : list (name * comp)) s, Inv s -> Inv (fold_left (fun acc kv => lock (fst kv) acc) l s).
@@ -513,7 +513,7 @@ Proof.
   - pose proof (inv_receive s p data rerr HD I). destruct (receive s p data rerr); auto.
   - cbn [fst]. apply inv_settle; auto.
   - pose proof (inv_received_q ps s now I). destruct (received_q s now ps); auto.
-  - pose proof (inv_status_q s now n sent I). destruct (status_q s now n sent); auto.
+  - pose proof (inv_status_q s now n h sent I). destruct (status_q s now n h sent); auto.
   - unfold scan_q. cbn [fst]. apply inv_fold_lock; auto.
   - cbn [fst]. apply inv_clean; auto.
   - cbn [fst]. apply inv_timers_fire; auto.
@@ -744,7 +744,7 @@ End Local.
 Definition toyH (b : list Z) : name := b.   (* any injective "hash" exhibits it *)
 Definition stale_px (c : name) : part_req := mkpr [120] [] [113] 2 c 0 2 0.
 Definition stale_ops : list sop :=
-  [OStatusQ 1000 [119] 900;
+  [OStatusQ 1000 [119] [] 900;
    OPrepare [120] 2; OReceive (stale_px [1; 1]) [1; 1] false; OSettle 1000;
    OPrepare [120] 2; OReceive (stale_px [2; 2]) [2; 2] false; OSettle 1000;
    OPrepare [113] 1; OReceive (mkpr [113] [] [] 1 [9] 0 1 0) [9] false; OSettle 1000].
@@ -887,30 +887,53 @@ End Recovery.
 (* ------------------------------------------------------------------ *)
 (* C02, receiver half: what a positive poll answer means                 *)
 
-Theorem status_positive_state : forall s now n sent s' code,
-  status_q s now n sent = (s', code) ->
+Theorem status_positive_state : forall s now n h sent s' code,
+  status_q s now n h sent = (s', code) ->
   code = CONFIRM_PASSED \/ code = CONFIRM_WAITING ->
-  cache_state s' n = ST_VALIDATED \/ cache_state s' n = ST_FINALIZED \/ cache_state s' n = ST_LOGGED.
+  (cache_state s' n = ST_VALIDATED \/ cache_state s' n = ST_FINALIZED \/ cache_state s' n = ST_LOGGED) /\
+  (h = [] \/ cache_hash s' n = [] \/ cache_hash s' n = h).
 Proof.
-  intros s now n sent s' code E Hc. unfold status_q in E. inversion E; subst; clear E.
-  set (st := cache_state (build_cache s now sent) n) in *.
-  destruct (st =? ST_RECEIVED) eqn:A; [destruct Hc; discriminate|].
-  destruct (st =? ST_FAILED) eqn:B; [destruct Hc; discriminate|].
-  destruct (st =? ST_VALIDATED) eqn:C; [apply Z.eqb_eq in C; auto|].
-  destruct ((st =? ST_LOGGED) || (st =? ST_FINALIZED)) eqn:D.
-  - apply orb_true_iff in D as [D|D]; apply Z.eqb_eq in D; auto.
-  - destruct Hc; discriminate.
+  intros s now n h sent s' code E Hc. unfold status_q in E. inversion E; subst; clear E.
+  set (s1 := build_cache s now sent) in *.
+  set (st := cache_state s1 n) in *.
+  destruct (other_version s1 n h) eqn:O; [destruct Hc; discriminate|].
+  split.
+  - destruct (st =? ST_RECEIVED) eqn:A; [destruct Hc; discriminate|].
+    destruct (st =? ST_FAILED) eqn:B; [destruct Hc; discriminate|].
+    destruct (st =? ST_VALIDATED) eqn:C; [apply Z.eqb_eq in C; auto|].
+    destruct ((st =? ST_LOGGED) || (st =? ST_FINALIZED)) eqn:D.
+    + apply orb_true_iff in D as [D|D]; apply Z.eqb_eq in D; auto.
+    + destruct Hc; discriminate.
+  - unfold other_version in O. destruct h as [|x h']; [left; reflexivity|].
+    destruct (cache_hash s1 n) as [|y k] eqn:K; [right; left; reflexivity|].
+    right; right. cbn [is_nil negb andb] in O. apply negb_false_iff in O. apply name_eqb_eq in O. exact O.
 Qed.
 
 (* a failed, unknown or merely received file is never answered positively *)
-Theorem status_negative_states : forall s now n sent,
+Theorem status_negative_states : forall s now n h sent,
   let st := cache_state (build_cache s now sent) n in
-  (st = ST_FAILED -> snd (status_q s now n sent) = CONFIRM_FAILED) /\
-  (st = ST_RECEIVED -> snd (status_q s now n sent) = CONFIRM_NONE) /\
-  (st = ST_UNKNOWN -> snd (status_q s now n sent) = CONFIRM_NONE).
+  (st = ST_FAILED -> snd (status_q s now n h sent) = CONFIRM_FAILED \/ snd (status_q s now n h sent) = CONFIRM_NONE) /\
+  (st = ST_RECEIVED -> snd (status_q s now n h sent) = CONFIRM_NONE) /\
+  (st = ST_UNKNOWN -> snd (status_q s now n h sent) = CONFIRM_NONE).
 Proof.
-  intros s now n sent st. unfold status_q; simpl. fold st.
-  repeat split; intros ->; reflexivity.
+  intros s now n h sent st. unfold status_q; simpl. fold st.
+  destruct (other_version (build_cache s now sent) n h).
+  - repeat split; intros _; auto.
+  - repeat split; intros ->; auto.
+Qed.
+
+(* what is known about another version of the name is never a positive answer *)
+Theorem status_other_version_unknown : forall s now n h sent,
+  h <> [] -> cache_hash (build_cache s now sent) n <> [] ->
+  cache_hash (build_cache s now sent) n <> h ->
+  snd (status_q s now n h sent) = CONFIRM_NONE.
+Proof.
+  intros s now n h sent Hh Hk Hne. unfold status_q; simpl.
+  assert (O : other_version (build_cache s now sent) n h = true).
+  { unfold other_version. destruct h as [|x h']; [congruence|].
+    destruct (cache_hash (build_cache s now sent) n) as [|y k] eqn:K; [congruence|]. cbn [is_nil negb andb].
+    apply negb_true_iff. apply name_eqb_false_neq. exact Hne. }
+  rewrite O. reflexivity.
 Qed.
 
 (* ------------------------------------------------------------------ *)
